@@ -439,7 +439,68 @@ def rule_T12(text):
     return text, fired
 
 
-RULES = {'T1': rule_T1, 'T2': rule_T2, 'T3': rule_T3, 'T5': rule_T5, 'T9': rule_T9, 'T10': rule_T10, 'T11': rule_T11, 'T12': rule_T12}
+def rule_T13(text):
+    """crossbeam `select! { send(S, E) -> R => ARM_SEND, default => ARM_DEFAULT }` (one send operation plus `default`: the
+    non-blocking send) is written as what it is:
+        match (S).verif_select_send(E) { Some(R) => ARM_SEND, None => ARM_DEFAULT }
+    `Some(result)`: the send operation was ready and completed with `result` (Ok: queued; Err: the receiver is gone);
+    `None`: it was not ready (queue full) and the default arm ran. Both arm bodies are kept verbatim."""
+    fired = 0
+    while True:
+        mask = code_mask(text)
+        m = re.search(r'\bselect!\s*\{', mask)
+        if not m:
+            break
+        ob = m.end() - 1
+        cb = match_brace(mask, ob)
+        inner, imask = text[ob + 1:cb], mask[ob + 1:cb]
+        m1 = re.match(r'\s*send\s*\(', imask)
+        if not m1:
+            raise ExtractError('T13: select! whose first operation is not `send(..)`')
+        sop = m1.end() - 1
+        scp = match_brace(imask, sop, '(', ')')
+        args = split_top_commas(inner[sop + 1:scp], imask[sop + 1:scp])
+        if len(args) != 2:
+            raise ExtractError('T13: send(..) with %d arguments' % len(args))
+        m2 = re.match(r'\s*->\s*(\w+)\s*=>\s*\{', imask[scp + 1:])
+        if not m2:
+            raise ExtractError('T13: `send(..) -> r => { .. }` expected')
+        a1o = scp + 1 + m2.end() - 1
+        a1c = match_brace(imask, a1o)
+        m3 = re.match(r'\s*,?\s*default\s*=>\s*\{', imask[a1c + 1:])
+        if not m3:
+            raise ExtractError('T13: a `default => { .. }` arm must follow the send arm')
+        a2o = a1c + 1 + m3.end() - 1
+        a2c = match_brace(imask, a2o)
+        if imask[a2c + 1:].strip(' \n\t,') != '':
+            raise ExtractError('T13: select! with more than one operation besides default')
+        new = ('match (%s).verif_select_send(%s) {\n            Some(%s) => %s,\n            None => %s\n        }'
+               % (args[0].strip(), args[1].strip(), m2.group(1), inner[a1o:a1c + 1], inner[a2o:a2c + 1]))
+        text = text[:m.start()] + new + text[cb + 1:]
+        fired += 1
+    return text, fired
+
+
+def rule_T14(text):
+    """`fn f(mut self, ..) { BODY }` is `fn f(self, ..) { let mut verif_self = self; BODY[self := verif_self] }` (what a `mut` binding
+    of a by-value parameter means); the signature part is done by a `sigsub /\(mut self/ => (self` line of the template"""
+    mask = code_mask(text)
+    out, last, n = '', 0, 0
+    for m in re.finditer(r'\bself\b', mask):
+        out += text[last:m.start()] + 'verif_self'
+        last = m.end()
+        n += 1
+    text = out + text[last:]
+    k = text.index('{')
+    text = text[:k + 1] + '\n        let mut verif_self = self;' + text[k + 1:]
+    return text, n
+
+
+RULES = {'T1': rule_T1, 'T2': rule_T2, 'T3': rule_T3, 'T5': rule_T5, 'T9': rule_T9, 'T10': rule_T10, 'T11': rule_T11, 'T12': rule_T12, 'T13': rule_T13, 'T14': rule_T14}
+
+
+def t6_key(callees):
+    return 'T6:' + (','.join(callees) if len(callees) <= 12 else '%s,..(%d names)' % (','.join(callees[:3]), len(callees)))
 
 
 def rule_T6(body, callees, arg):
@@ -449,7 +510,9 @@ def rule_T6(body, callees, arg):
     # a callee entry is a method name (`delete`) or a dotted path suffix (`cache.get`, `self.get`)
     alts = []
     for c in callees:
-        if '.' in c:
+        if '::' in c:
+            alts.append(r'(?<![\w])' + r'\s*::\s*'.join(re.escape(x) for x in c.split('::')))
+        elif '.' in c:
             alts.append(r'(?<![\w])' + r'\s*\.\s*'.join(re.escape(x) for x in c.split('.')))
         else:
             alts.append(r'(?:\.|::)\s*' + re.escape(c))
@@ -608,7 +671,7 @@ def extract_fn(repo: str, spec: dict):
         fired['T8:' + var] = n
     for (callees, arg) in spec.get('ghost_args', []):
         body, n = rule_T6(body, callees, arg)      # n == 0: the function no longer makes any of these calls; the contract decides
-        fired['T6:' + ','.join(callees)] = n
+        fired[t6_key(callees)] = n
     for k in sorted(spec.get('closures', {}), reverse=True):
         body, n = rule_T7(body, int(k), spec['closures'][k])
         fired['T7:closure%d' % int(k)] = n
@@ -686,7 +749,7 @@ def extract_closure_fn(repo: str, spec: dict):
         fired[r] = n
     for (callees, arg) in spec.get('ghost_args', []):
         body, n = rule_T6(body, callees, arg)
-        fired['T6:' + ','.join(callees)] = n
+        fired[t6_key(callees)] = n
     out = spec['signature'].rstrip()
     if spec.get('contract'):
         out += '\n' + spec['contract'].rstrip() + '\n    '
@@ -739,7 +802,7 @@ def extract_loop_body_fn(repo: str, spec: dict):
         fired[r] = k
     for (callees, arg) in spec.get('ghost_args', []):
         body, k = rule_T6(body, callees, arg)
-        fired['T6:' + ','.join(callees)] = k
+        fired[t6_key(callees)] = k
     gone = loops_gone(body, spec, fired)
     for kk in sorted(spec.get('loop_tails', {}) if not gone else {}, reverse=True):
         lob = nth_loop_brace(body, int(kk))
